@@ -283,6 +283,9 @@ def u_faults(W, sk):
         df = pd.concat([df.drop(index=i), df.iloc[[j]]], ignore_index=True)
         expect_error = True
     df = df.sample(frac=1.0, random_state=rng.randrange(10**6)).reset_index(drop=True)
+    if rng.random() < 0.4:
+        df = df.rename(columns={dm.name: dm.letter for dm in dims.dim_list})
+        W.inputs["headers"] = "dimension letters"
     W.inputs["table"] = df.astype(str).values.tolist()
     via = sk["via"]
     if via == "from_df":
@@ -370,6 +373,23 @@ def u_check_data_complete(W, sk):
     conv.allow_missing_values = sk["allow_missing"]
     conv.allow_extra_values = sk["allow_extra"]
     conv.format = FlodymDataFormat(type="long", value_column="value")
+
+    class ArbitrarySubset:
+        """bookkeeping lists of the first half of the importer: which names they hold is unconstrained"""
+
+        def __init__(self, tag):
+            self.tag, self.memo = tag, {}
+
+        def __contains__(self, key):
+            if key not in self.memo:
+                self.memo[key] = core.SymBool(W.c.fresh(f"{self.tag}_has_{key}", "bool"))
+            return bool(self.memo[key])
+
+        def __iter__(self):
+            raise core.Unsupported(f"iteration over {self.tag}")
+
+    conv.original_dim_columns = ArbitrarySubset("original_dim_columns")  # headers that named a dimension in the given table
+    conv.dim_columns = [d.name for d in dims]
     warnings = []
     stubs = [(mod, "itertools", symtable.FakeItertools()), (mod.logging, "warning", lambda *a, **k: warnings.append(a))]
     snaps = SL.snapshot(W, [target])
